@@ -84,7 +84,52 @@ def tool_compare(ctx, a, b):
         return ctx.G.compare_asm_block_asm_format(ba, bb, ctx.params)
 
 
+def work_opt(ctx, block):
+    """Pairs (B, mutant of the sequence the tool itself proposes for B): the candidates the checker really sees are
+    near the optimized block, not near the input -- a specification that licenses too much (e.g. a non-commutative
+    result flagged commutative after a rule) is only visible on such pairs."""
+    out = {"pairs": 0, "distinguishable": 0, "accepted_equal": 0, "rejected": 0, "raised": 0, "viol": []}
+    try:
+        r = driver.run_block(ctx, block)
+    except (repo.UnitTimeout, MemoryError):
+        raise
+    cand = r.get("candidate")
+    if r["raised"] or not cand or not r["candidate_changed"]:
+        return out
+    seen = set()
+    for label, m in mutants(cand):
+        t = tuple(m)
+        if t in seen or m == cand:
+            continue
+        seen.add(t)
+        try:
+            E.need_delta(m)
+        except E.BadInstr:
+            continue
+        out["pairs"] += 1
+        d = distinguishable(block, m)
+        if d is None:
+            continue
+        out["distinguishable"] += 1
+        try:
+            eq, reason = tool_compare(ctx, block, m)
+        except (repo.UnitTimeout, MemoryError):
+            raise
+        except Exception:
+            out["raised"] += 1
+            continue
+        if eq:
+            out["accepted_equal"] += 1
+            out["viol"].append({"kind": "accepted-distinguishable", "label": "opt+" + label, "block": B.to_text(block),
+                                "other": B.to_text(m), "config": list(ctx.cfg), "diff": d})
+        else:
+            out["rejected"] += 1
+    return out
+
+
 def work(ctx, block):
+    if isinstance(block, tuple) and block and block[0] == "opt":
+        return work_opt(ctx, block[1])
     out = {"pairs": 0, "distinguishable": 0, "accepted_equal": 0, "rejected": 0, "raised": 0, "viol": []}
     # reflexivity
     try:
@@ -157,11 +202,16 @@ def unit_sets(tier):
         yield "rule-family(1)/8", list(families.rule_family(1))[::8], base[:1]
         yield "mem-family(2)/3@no-simp", list(families.mem_family(2))[::3], base[1:2]
         yield "tree(SPLIT11,3)", list(B.tree(SPLIT11, 3)), base[:1] + [("-storage", "-greedy")]
+        yield "opt:consume-family/3", [("opt", b) for b in list(families.consume_family())[::3]], base[:1]
+        yield "opt:rule-family(1)/16", [("opt", b) for b in list(families.rule_family(1))[3::16]], base[:1]
     else:
         yield "tree(CORE+,3)", list(B.tree(B.CORE + EXTRA, 3)), allc
         yield "mem-family(2)", list(families.mem_family(2)), allc
         yield "rule-family(1)", list(families.rule_family(1)), base
         yield "tree(SPLIT11,4)", list(B.tree(SPLIT11, 4)), allc
+        yield "opt:consume-family", [("opt", b) for b in families.consume_family()], base[:1] + allc[2:]
+        yield "opt:rule-family(1)", [("opt", b) for b in families.rule_family(1)], base[:1]
+        yield "opt:mem-family(2)", [("opt", b) for b in families.mem_family(2)], base[:1]
 
 
 def main(tier, seed, only=None):
@@ -169,7 +219,8 @@ def main(tier, seed, only=None):
     chk.cov["rule"] = ("blocks (prefix trees, memory and rule families) x all single-point semantic mutations "
                        "(opcode substitution within confusable pairs, operand swap, constant change, DUP/SWAP index, "
                        "dropped/duplicated/transposed stores) x front-end option sets; every pair the reference EVM "
-                       "distinguishes is given to compare_asm_block_asm_format; plus compare(B,B) for every block; "
+                       "distinguishes is given to compare_asm_block_asm_format; plus compare(B,B) for every block; plus "
+                       "(opt: sets) pairs (B, single-point mutation of the sequence the tool proposes for B); "
                        "non-trivial = distinguishable pairs submitted to the checker")
     tot = {"pairs": 0, "distinguishable": 0, "accepted_equal": 0, "rejected": 0, "raised": 0, "budget": 0,
            "blocks": 0}
@@ -186,6 +237,8 @@ def main(tier, seed, only=None):
         for v in value["viol"]:
             chk.violation(signature(v), v)
         if value["rejected"] and tot["blocks"] % 3001 == 0:
+            if isinstance(block, tuple) and block and block[0] == "opt":
+                block = block[1]
             chk.sample({"block": B.to_text(block), "config": list(cfg), "distinguishable_mutants": value["distinguishable"],
                         "rejected": value["rejected"]})
 
